@@ -19,7 +19,11 @@ fn stray(rng: &mut Rng) -> Vec<u8> {
         1 => vec![0, 1, b'x', 0, b'o', b'c', b't', b'e', b't', 0],
         2 => vec![0, 9, 1, 2],
         3 => vec![0],
-        4 => vec![0, 4, 7],
+        4 => {
+            // short, or under an opcode whose high byte is not zero (no TFTP packet, whatever the low byte says)
+            let v: &[&[u8]] = &[&[0, 4, 7], &[1, 4, 0, 1], &[2, 4, 0, 0], &[255, 3, 0, 1, 9, 9], &[1, 5, 0, 0, 0], &[1, 4, 0, 2], &[1, 4, 0, 3]];
+            v[rng.below(v.len() as u64) as usize].to_vec()
+        }
         5 => {
             let n = rng.range(0, 40) as usize;
             rng.bytes(n)
@@ -241,7 +245,7 @@ pub fn gen_recv(rng: &mut Rng) -> String {
     while k <= nblk && budget > 0 {
         budget -= 1;
         if rng.below(100) < fault_rate {
-            match rng.below(13) {
+            match rng.below(14) {
                 0 => evs.push(format!("e{}", tmo)),
                 1 => {
                     k += 1; // a dropped block
@@ -287,6 +291,12 @@ pub fn gen_recv(rng: &mut Rng) -> String {
                     break;
                 }
                 11 => evs.push(ev_d(0, &data(rng.below(65536), vec![9; 3]))),
+                12 => {
+                    // the expected block number under an opcode that is not DATA (high byte not zero): not a TFTP packet
+                    let mut d = data(k, vec![0xee; blk as usize]);
+                    d[0] = *rng.pick(&[1u8, 2, 0x80, 0xff]);
+                    evs.push(ev_d(0, &d));
+                }
                 _ => {
                     let mut d = data(k, chunk(k));
                     d.truncate(rng.range(0, 4) as usize); // truncated header
@@ -402,6 +412,51 @@ pub fn generate(suite: &str, seed: u64, count: u64, tier: &str) -> Vec<String> {
                     }
                 }
                 out.push(format!("recv {blk} {ws} {} 1 1 - {}", SEC, join(&evs)));
+            }
+            // retry-budget boundary at the edge of a window (nothing buffered): k time-outs and 6 - k (7 - k) repeated old blocks
+            // in either order, then silence - the upload is given up exactly when six receives in a row have failed,
+            // and then cleaned up (or kept)
+            for ws in [1u64, 2] {
+                for clean in [1u8, 0] {
+                    for k in 0..=6u64 {
+                        for extra in [0u64, 1] {
+                            for old_last in [true, false] {
+                                let blk = 8u64;
+                                let size = 5 * blk + 3;
+                                let chunk = |j: u64| -> Vec<u8> { ((j - 1) * blk..(j * blk).min(size)).map(|i| pat_byte(9, i)).collect() };
+                                let mut evs: Vec<String> = (1..=2 * ws).map(|j| ev_d(0, &data(j, chunk(j)))).collect();
+                                let olds = 6 + extra - k.min(6);
+                                let old = ev_d(0, &data(2 * ws, chunk(2 * ws)));
+                                if old_last {
+                                    for _ in 0..k { evs.push(format!("e{}", SEC)); }
+                                    for _ in 0..olds { evs.push(old.clone()); }
+                                } else {
+                                    for _ in 0..olds { evs.push(old.clone()); }
+                                    for _ in 0..k { evs.push(format!("e{}", SEC)); }
+                                }
+                                out.push(format!("recv {blk} {ws} {SEC} 1 {clean} - {}", join(&evs)));
+                            }
+                        }
+                    }
+                }
+            }
+            // duplicate-packets mode: the send of a LATER copy of an ACK fails (the peer's port is gone) - only the first copy counts
+            for rep in [2u64, 3, 4] {
+                for ws in [1u64, 2] {
+                    let blk = 8u64;
+                    let size = 2 * ws * blk + 3;
+                    let nb = size / blk + 1;
+                    let chunk = |j: u64| -> Vec<u8> { ((j - 1) * blk..(j * blk).min(size)).map(|i| pat_byte(11, i)).collect() };
+                    let evs: Vec<String> = (1..=nb).map(|j| ev_d(0, &data(j, chunk(j)))).collect();
+                    let nacks = (nb + ws - 1) / ws;
+                    // send calls are numbered from 0; ACK number a (0-based) occupies calls a*rep .. a*rep + rep - 1
+                    for a in [0, nacks - 1] {
+                        for copy in 1..rep {
+                            out.push(format!("recv {blk} {ws} {SEC} {rep} 1 {} {}", a * rep + copy, join(&evs)));
+                            out.push(format!("recv {blk} {ws} {SEC} {rep} 0 {},{} {}", a * rep + copy, a * rep + rep - 1, join(&evs)));
+                        }
+                    }
+                }
             }
             for _ in 0..count {
                 out.push(gen_recv(&mut rng));
